@@ -431,13 +431,13 @@ Example demo_crash_between_renames :
   let flushes := [[83; 78]; [65; 78]] in
   let ops := save_ops [0; 1; 2]%nat (writer_chunks flushes) (writer_crc flushes) in
   exists f', crash f_demo ops f' /\ f' (Content 0%nat) = Some (concat (writer_chunks flushes)) /\
-             f' (Content 1%nat) = Some [1] /\ f' (Content 2%nat) = Some [1] /\ length ops = 28%nat.
+             f' (Content 1%nat) = Some [1] /\ f' (Content 2%nat) = Some [1] /\ length ops = 27%nat.
 Proof.
   cbv zeta.
   set (ops := save_ops [0; 1; 2]%nat (writer_chunks [[83; 78]; [65; 78]]) (writer_crc [[83; 78]; [65; 78]])).
-  destruct (exec f_demo (firstn 26 ops)) as [f'|] eqn:E; [|vm_compute in E; discriminate].
+  destruct (exec f_demo (firstn 25 ops)) as [f'|] eqn:E; [|vm_compute in E; discriminate].
   exists f'. split; [|split; [|split; [|split]]].
-  - replace ops with (firstn 26 ops ++ skipn 26 ops) by apply firstn_skipn.
+  - replace ops with (firstn 25 ops ++ skipn 25 ops) by apply firstn_skipn.
     assert (G : forall l1 l2 f f1, exec f l1 = Some f1 -> crash f (l1 ++ l2) f1).
     { induction l1 as [|o l1 IH]; intros l2 f f1 H; cbn [exec] in H.
       - injection H as <-. constructor.
